@@ -14,6 +14,7 @@ pub use core::hint::unreachable_unchecked;
 pub enum ErrorKind {
     ArityMismatch,
     TypeMismatch,
+    ContractViolation,
     Generic,
 }
 #[derive(Clone, Copy, Debug, PartialEq, Eq)]
@@ -359,5 +360,30 @@ impl PartialEq for SteelVal {
             (SteelVal::VectorV(a), SteelVal::VectorV(b)) => Gc::ptr_eq(&a.0, &b.0),
             _ => false,
         }
+    }
+}
+
+/// the optional trailing arguments of a primitive, already converted (steel_vm/builtin.rs)
+pub struct RestArgsIter<'a, T> {
+    pub items: [Option<Result<T>>; 3],
+    pub pos: usize,
+    pub n: usize,
+    pub _p: core::marker::PhantomData<&'a ()>,
+}
+impl<'a, T: Copy> Iterator for RestArgsIter<'a, T> {
+    type Item = Result<T>;
+    fn next(&mut self) -> Option<Result<T>> {
+        if self.pos < self.n {
+            let r = self.items[self.pos];
+            self.pos += 1;
+            r
+        } else {
+            None
+        }
+    }
+}
+impl<'a, T: Copy> RestArgsIter<'a, T> {
+    pub fn len(&self) -> usize {
+        self.n - self.pos
     }
 }
